@@ -733,3 +733,98 @@ Proof.
   rewrite chunks_concat in HO. rewrite HO, effect_inert_suffix by exact HT.
   rewrite (sim_effect sty _ _ sk Hsim). symmetry. apply effect_join. constructor.
 Qed.
+
+(* ================= G. texts and elements the formatter takes; the page theorem ================= *)
+Local Open Scope Z_scope.
+(* (NH) no hyphen is read inside a tag name: then no line can be broken inside a tag *)
+Definition no_hyphen_in_tags (u : str) : Prop :=
+  forall X Y, u = X ++ HY :: Y -> match l_cand (fold_left lex_step X lex_init) with CName _ _ => False | _ => True end.
+(* behind text that is pending, the last character read is its last character *)
+Lemma cur_last : forall X, l_cand (fold_left lex_step X lex_init) = CText -> l_cur (fold_left lex_step X lex_init) <> [] ->
+  last (l_cur (fold_left lex_step X lex_init)) 0%N = last X 0%N.
+Proof.
+  intros X. destruct X as [|c X'] using rev_ind; [cbn; congruence|]. clear IHX'.
+  rewrite fold_left_app. cbn [fold_left]. set (st := fold_left lex_step X' lex_init). intros Hk Hc. rewrite last_last.
+  destruct (lex_step_shape st c) as [[_ E]|[[_ E]|[(k & _ & Ht & Er & E)|(cl & nm & _ & E)]]]; rewrite E in Hk, Hc |- *; cbn [mk l_cand l_cur] in *.
+  - discriminate.
+  - now rewrite !app_assoc, last_last.
+  - subst k. cbn [raw_of] in Er. destruct (raw_of (l_cand st)); discriminate.
+  - congruence.
+Qed.
+Lemma nh_cuts u : no_hyphen_in_tags u -> cuts_ok u.
+Proof.
+  intros Hnh X y0 Y E HX Hs. unfold safe_cut. set (st := fold_left lex_step X lex_init).
+  assert (continues (l_cand st) y0 = false) as Hc.
+  { apply orb_prop in Hs as [Hs|Hs].
+    - (* behind a blank or a hyphen: no tag is pending *)
+      destruct X as [|p X'] using rev_ind; [congruence|]. clear IHX'. rewrite last_last in Hs.
+      subst st. rewrite fold_left_app. cbn [fold_left]. set (s0 := fold_left lex_step X' lex_init).
+      assert (l_cand (lex_step s0 p) = CText) as ->; [|reflexivity].
+      unfold sphy in Hs. apply orb_prop in Hs as [Hp|Hp]; apply N.eqb_eq in Hp; subst p.
+      + now rewrite (inert_step s0 SP (inert_space SP eq_refl)).
+      + specialize (Hnh X' (y0 :: Y)). rewrite <- app_assoc in E. specialize (Hnh E). fold s0 in Hnh.
+        unfold lex_step. change (N.eqb HY LT) with false. cbv iota. destruct (l_cand s0); [reflexivity| | |contradiction].
+        * change (N.eqb HY SLASH) with false. change (tag_start HY) with false. reflexivity.
+        * change (N.eqb HY GT) with false. change (tag_start HY) with false. reflexivity.
+    - unfold sphy in Hs. apply orb_prop in Hs as [Hp|Hp]; apply N.eqb_eq in Hp; subst y0.
+      + destruct (l_cand st); reflexivity.
+      + specialize (Hnh X Y E). fold st in Hnh. destruct (l_cand st); [reflexivity|reflexivity|reflexivity|contradiction]. }
+  rewrite Hc. cbn [negb andb]. apply negb_true_iff.
+  destruct (N.eqb_spec y0 LT) as [->|]; [|reflexivity]. cbn [andb].
+  destruct (l_cand st) eqn:Ek; try reflexivity.
+  destruct (l_cur st) as [|c0 r0] eqn:Ecur; [reflexivity|].
+  (* the pending text ends with the blank or hyphen just read *)
+  assert (last (l_cur st) 0%N = last X 0%N) as El by (apply cur_last; [exact Ek|change (l_cur st <> []); rewrite Ecur; discriminate]).
+  change (sphy LT) with false in Hs. rewrite orb_false_r in Hs. rewrite <- El, Ecur in Hs.
+  destruct (c0 :: r0) as [|z r] using rev_ind; [discriminate|]. rewrite last_last in Hs. rewrite ends_snoc.
+  unfold sphy in Hs. apply orb_prop in Hs as [Hp|Hp]; apply N.eqb_eq in Hp; subst z; reflexivity.
+Qed.
+
+(* a text the formatter takes at the wrap width w: no "<" in it at all; or its words fit, no tag name holds a hyphen, and the
+   text is neutral (munge: textwrap's view of the text, every white-space character a blank) *)
+Definition text_ok (sty : styles) (w : Z) (t : str) : Prop :=
+  no_lt t \/ (words_fit w t /\ no_hyphen_in_tags (munge t) /\ neutral sty false (munge t)).
+Lemma effects_no_lt sty : forall ls sk, Forall no_lt ls -> effects sty ls sk = Ok sk.
+Proof. induction ls as [|l r IH]; intros sk H; [reflexivity|]. inversion H; subst. cbn [effects]. rewrite effect_no_lt by assumption. now apply IH. Qed.
+Lemma munge_no_lt t : no_lt t -> no_lt (munge t).
+Proof. intros H. unfold munge, no_lt in *. apply Forall_forall. intros c Hc. apply in_map_iff in Hc as [x [<- Hx]]. rewrite Forall_forall in H. destruct (tw_space x); [discriminate|now apply H]. Qed.
+Lemma text_ok_lines sty w t ls sk : wrap t w = Ok ls -> text_ok sty w t -> effects sty ls sk = Ok sk.
+Proof.
+  intros Hw [Hn|(Hf & Hnh & Hneu)].
+  - apply effects_no_lt. apply (wrap_lines_chars_lemma (fun c => c <> LT) t w ls Hw). now apply munge_no_lt.
+  - rewrite (wrap_effect sty t w ls sk Hw Hf (nh_cuts _ Hnh)). apply Hneu.
+Qed.
+
+(* an element the formatter takes: the label neutral, not ending with a backslash, at least one blank between label and text *)
+Definition elem_ok (sty : styles) (W off : Z) (ind : nat) (e : elem) : Prop :=
+  match e with
+  | EEmpty => True
+  | EPara t => text_ok sty (wrap_width W off ind 0 e) t
+  | ELab label text padding aligned =>
+    neutral sty false label /\ ends_with_bsl label = false /\ (1 <= padding)%nat /\
+    text_ok sty (wrap_width W off ind (vis_of sty label) e) text
+  end.
+Lemma elem_ok_label sty W off ind e : elem_ok sty W off ind e -> label_neutral sty e.
+Proof.
+  destruct e as [t|label text padding aligned|]; unfold label_neutral; cbn [elem_label elem_ok]; try (intros _ sk; reflexivity).
+  intros (H1 & H2 & _). now rewrite H2.
+Qed.
+Lemma elem_ok_raw sty W off ind e : elem_ok sty W off ind e -> raw_neutral sty W off ind e.
+Proof.
+  intros H raw Hr sk. destruct e as [t|label text padding aligned|]; cbn [elem_label elem_ok] in *.
+  - destruct (para_raw_effect sty W off ind _ t raw sk Hr) as (ls & Hw & ->). cbn [wrap_width] in H. eapply text_ok_lines; eauto.
+  - destruct H as (H1 & H2 & H3 & H4).
+    destruct (lab_raw_effect sty W off ind _ label text padding aligned raw sk Hr H3 (vis_of_le sty label)) as (ls & Hw & ->).
+    rewrite H1. cbn [bind]. cbn [wrap_width] in H4. eapply text_ok_lines; eauto.
+  - inversion Hr. reflexivity.
+Qed.
+Definition layout_ok (sty : styles) (W : Z) (l : layout) : Prop :=
+  Forall (fun x => elem_ok sty W (align_vis sty l 0) (fst x) (snd x)) l.
+
+Theorem page_renders W f l : f_kind f <> FNull -> needed_width_for (f_styles f) l <= W -> layout_ok (f_styles f) W l ->
+  exists s, render_page W f l = Ok s.
+Proof.
+  intros Hk HW Hl. unfold layout_ok in Hl. apply page_renders_neutral; [exact Hk| |exact HW|].
+  - eapply Forall_impl; [|exact Hl]. intros x Hx. eapply elem_ok_label, Hx.
+  - eapply Forall_impl; [|exact Hl]. intros x Hx. now apply elem_ok_raw.
+Qed.
